@@ -2820,7 +2820,10 @@ static Type *struct_union_decl(Token **rest, Token *tok) {
   if (tag && !equal(tok, "{")) {
     *rest = tok;
 
-    Type *ty2 = find_tag(tag);
+    // `struct T;` declares a tag in the current scope even if an
+    // outer scope has a tag of the same name.
+    Type *ty2 = equal(tok, ";") ? hashmap_get2(&scope->tags, tag->loc, tag->len)
+                                : find_tag(tag);
     if (ty2)
       return ty2;
 
@@ -2830,6 +2833,15 @@ static Type *struct_union_decl(Token **rest, Token *tok) {
   }
 
   tok = skip(tok, "{");
+
+  // The tag is in scope as soon as it appears, so that members can
+  // refer to the struct being defined rather than to a struct of the
+  // same name in an outer scope.
+  if (tag && !hashmap_get2(&scope->tags, tag->loc, tag->len)) {
+    Type *incomplete = struct_type();
+    incomplete->size = -1;
+    push_tag_scope(tag, incomplete);
+  }
 
   // Construct a struct object.
   struct_members(&tok, tok, ty);
